@@ -518,6 +518,44 @@ def is_probe(fail):
     return isinstance(fail.get("in"), dict) and fail["in"].get("mode") == "probe"
 
 
+_FOLD_SPECIAL = {0xDF, 0x17F, 0x212A, 0x1E9E} | set(range(0xFB00, 0xFB07))
+
+
+def m_multichar_fold(fail):
+    """C12: an -i form, nothing missing, and every subject selected in excess contains a character whose Unicode case
+    folding is not a single character of the same script (sharp s ~ ss, long s ~ s, Kelvin sign ~ k, the fi.. ligatures)."""
+    i, o = fail["in"], fail["obs"]
+    subs = i.get("subjects")
+    if not i.get("fold") or subs is None or o.get("panic") or "exit" in o or "spells" in i:
+        return False
+    exp = set(fail["exp"]["m"])
+    ok = o.get("name_ok", [])
+    some = False
+    for key in ("lname", "name", "path"):
+        got = set(o.get(key, []))
+        want = exp if key == "lname" else {k for k in exp if k - 1 < len(ok) and ok[k - 1]}
+        if want - got:
+            return False
+        for k in got - want:
+            if not (set(subs[k - 1]) & _FOLD_SPECIAL):
+                return False
+            some = True
+    return some
+
+
+def m_newerxy_substring(fail):
+    """C11: a word that is not a primary but contains the name of a -newerXY test, followed by an existing file: taken
+    for that test instead of being rejected."""
+    import re
+    words = fail["in"].get("words", [])
+    o = fail["obs"]
+    if o.get("panic") or o.get("hang") or o.get("rejected"):
+        return False
+    bad = [w for w in words if w.get("k") == "prim" and w.get("okind") == "unknown1"]
+    others = [w for w in words if w.get("k") == "prim" and w.get("okind") in ("unknown", "missing", "missing1")]
+    return bool(bad) and not others and all(re.search(r"-newer[aBcm][aBcmt]", w["prim"]) and not re.fullmatch(r"-newer[aBcm][aBcmt]", w["prim"]) for w in bad)
+
+
 def m_deep_nesting_abort(fail):
     """C11: the expression inside several hundred pairs of parentheses; the process aborts (stack overflow in the recursive
     descent), nothing else is wrong with the run."""
